@@ -272,6 +272,24 @@ func checkC17Decode(r *run, c *FixedCase) (CaseInfo, error) {
 				if d.EstimatedCaptureClockOffset == nil || *d.EstimatedCaptureClockOffset != int64(binary.BigEndian.Uint64(raw[8:])) {
 					return ci, fail(d, err)
 				}
+				// a value copy of the decoded extension is the caller's too: the receiver's next decode must not reach it
+				{
+					kept := d
+					keptOff := *kept.EstimatedCaptureClockOffset
+					other := clone(raw)
+					for i := 8; i < 16; i++ {
+						other[i] ^= 0x5A
+					}
+					if err := d.Unmarshal(other); err != nil {
+						return ci, failf("AbsCaptureTime.Unmarshal(%s): %v", hx(other), err)
+					}
+					if kept.EstimatedCaptureClockOffset == nil || *kept.EstimatedCaptureClockOffset != keptOff {
+						return ci, failf("a value copy of an extension decoded from %s reads offset %v after the receiver decoded %s (was %d)", hx(raw), kept.EstimatedCaptureClockOffset, hx(other), keptOff)
+					}
+					if err := d.Unmarshal(raw); err != nil {
+						return ci, failf("AbsCaptureTime.Unmarshal(%s): %v", hx(raw), err)
+					}
+				}
 				// the decoded value belongs to the caller (a relay adds its own clock difference through the
 				// pointer): that must not reach what a later decode of the same bytes yields
 				*d.EstimatedCaptureClockOffset += 0x100000001
@@ -503,7 +521,7 @@ func enumC17(r *run) bool {
 	return true
 }
 
-const ruleC17 = "complete enumeration of the finite value domains (AudioLevel 2x256, TransportCC 2^16, PlayoutDelay boundary rows and out-of-range values in quick / all 2^24 pairs in thorough, AbsSendTime 2^16 spread values in quick / all 2^24 in thorough, every input length 0..size+2 with preloaded receivers) plus rapid-drawn cases for the 64-bit domains (AbsSendTime 64-bit timestamps, AbsCaptureTime timestamps with/without int64 offsets) and random decode inputs of every length 0..size+2 and of size+{3..255}, occasionally 65536+{0..size+2} (a third of them with runs of 0x00/0xFF, e.g. a zero offset field); oracle: hand-written bit layouts of the specifications, error and no bytes for out-of-range values, decode independent of previous receiver content, trailing bytes ignored, short input rejected, Unmarshal(Marshal(v)) = v, and Marshal gives the same bytes again after the caller overwrote and appended to the buffer an earlier call returned; a decoded AbsCaptureTime offset is changed through its pointer and the same bytes decoded again. Every case is non-trivial (each checks one value or one input against the layout); distinct = enumerated values are distinct by construction, drawn ones by FNV-64 of the JSON case"
+const ruleC17 = "complete enumeration of the finite value domains (AudioLevel 2x256, TransportCC 2^16, PlayoutDelay boundary rows and out-of-range values in quick / all 2^24 pairs in thorough, AbsSendTime 2^16 spread values in quick / all 2^24 in thorough, every input length 0..size+2 with preloaded receivers) plus rapid-drawn cases for the 64-bit domains (AbsSendTime 64-bit timestamps, AbsCaptureTime timestamps with/without int64 offsets) and random decode inputs of every length 0..size+2 and of size+{3..255}, occasionally 65536+{0..size+2} (a third of them with runs of 0x00/0xFF, e.g. a zero offset field); oracle: hand-written bit layouts of the specifications, error and no bytes for out-of-range values, decode independent of previous receiver content, trailing bytes ignored, short input rejected, Unmarshal(Marshal(v)) = v, and Marshal gives the same bytes again after the caller overwrote and appended to the buffer an earlier call returned; a decoded AbsCaptureTime offset is changed through its pointer and the same bytes decoded again; a value copy of a decoded extension keeps its offset when the receiver decodes other bytes. Every case is non-trivial (each checks one value or one input against the layout); distinct = enumerated values are distinct by construction, drawn ones by FNV-64 of the JSON case"
 
 func TestC17(t *testing.T) {
 	r := begin(t, "C17", "exploration", ruleC17)
